@@ -11,7 +11,7 @@ import warnings
 from .common import Oracle, Suite, errname, hx, merge
 
 GEN_UNITS = ["Apache"]
-LEAN_TARGETS = ["PasslibVerif.Props.C16"]
+LEAN_TARGETS = ["PasslibVerif.Props.C16", "PasslibVerif.Props.C16File"]
 ASSUMPTIONS = [
     "CryptContext.verify_and_update / htdigest.verify are parameters of the model (decided under C04 / C01); here they enter as the table of answers the real context gave",
     "file mtime granularity is the operating system's (load_if_changed is exercised on a temp directory, not modelled beyond the mtime cell)",
@@ -620,7 +620,12 @@ def correspond(ctx):
             o_sem.check(tag, ok, inp, obs, exp)
     finally:
         shutil.rmtree(tmp, ignore_errors=True)
-    res = merge(s_exp, s_rnd, s_bytes, s_file, o_sem, exhaustive=ctx.thorough)
+    # the file side (path, mtime cell, load / load_if_changed / save / autosave, another process replacing the file): Model.ApacheFile
+    from . import c16_file
+
+    s_fmodel = Suite(ctx, "file-side-model", batch=2000)
+    c16_file.model_suite(ctx, s_fmodel)
+    res = merge(s_exp, s_rnd, s_bytes, s_file, s_fmodel, o_sem, exhaustive=ctx.thorough)
     res["suites"]["explicit-state-sequences"]["independent_reader_checks"] = independent["checked"]
     return res
 
